@@ -18,6 +18,9 @@ type SentReq struct {
 	UC   bool
 	Nom  *uint32
 	Role string // "controlling" / "controlled" / ""
+	// Order: position among the agent's requests in wire order (transaction ids are random: anything that
+	// chooses among requests sorts by this)
+	Order int
 }
 
 // SideLedger is the checker's own record for one agent, built from the wire
@@ -130,7 +133,7 @@ func (l *Ledger) scanWire() {
 		} else if m.Controlled != nil {
 			role = "controlled"
 		}
-		s.Sent[m.TxID] = SentReq{L: w.D.Src, R: w.D.Dst, UC: m.UseCandidate, Nom: m.Nomination, Role: role}
+		s.Sent[m.TxID] = SentReq{L: w.D.Src, R: w.D.Dst, UC: m.UseCandidate, Nom: m.Nomination, Role: role, Order: s.SentReqs}
 		s.SentReqs++
 		if m.UseCandidate {
 			s.SentUC++
